@@ -3,9 +3,14 @@
 package telemetry
 
 // vtraceSink receives every vtrace call when the package is built with
-// the "verif" tag. Every call site sits inside the sequencer lock, after
-// the state change it names, so the sink runs serialized by that lock and
-// may read sequencer / drop state directly. nil → calls are ignored.
+// the "verif" tag. Every call site except "emit.pre" / "fup.pre" sits
+// inside the sequencer lock, after the state change it names, so for
+// those the sink runs serialized by that lock and may read sequencer /
+// drop state directly. "emit.pre" / "fup.pre" mark the point between an
+// emitter's lock-free pre-check and its lock section; they are called
+// WITHOUT the lock (the sink must not touch lock-protected state there)
+// and let a test park an emitter exactly in that window. nil → calls
+// are ignored.
 //
 // Set it only while no client is running.
 var vtraceSink func(ev string, a, b, c uint64)
